@@ -297,8 +297,11 @@ func jwkNoEmptyY(v interface{}) interface{} {
 // c11ThroughBatchFiles: "once anchored" goes through batch files. Two client-built chains (different DIDs) are anchored round
 // by round - round k holds the k-th request of both - through the REAL OperationHandler, CAS, OperationProvider and
 // TxnProcessor into an operation store; after every round both DIDs must resolve to the state the builder inputs predict.
-func c11ThroughBatchFiles(c *hx.Ctx) {
-	nPairs := c.N(150, 3000)
+func c11ThroughBatchFiles(c *hx.Ctx) { chainsThroughBatchFiles(c, c.N(150, 3000)) }
+
+// chainsThroughBatchFiles is shared by C11 (client-built requests take effect once anchored) and C03 (histories anchored
+// through batch files resolve to the reference state).
+func chainsThroughBatchFiles(c *hx.Ctx, nPairs int) {
 	root := c.Rng("batch-files")
 	seeds := make([]uint64, nPairs)
 	for i := range seeds {
@@ -336,7 +339,7 @@ func c11ThroughBatchFiles(c *hx.Ctx) {
 			}
 			d, cr, err := NewCDid(r.Split(fmt.Sprint("did", k)), ref.SHA256, []string{hx.Pick(r, ref.KeyTypes), "P-256"}, int64(p.MaxOperationTimeDelta), false, patches, opaque, genOrigin(r), typ)
 			if err != nil {
-				c.Violation("C11 client.NewCreateRequest refused valid inputs: "+err.Error(), nil)
+				c.Violation(c.ID+" client.NewCreateRequest refused valid inputs: "+err.Error(), nil)
 				return
 			}
 			d.Suffix = suffixOf(cr.Req, ref.SHA256)
@@ -358,7 +361,7 @@ func c11ThroughBatchFiles(c *hx.Ctx) {
 					b, err = d.Update(genPatches(r, 2, ids), 0, 0)
 				}
 				if err != nil {
-					c.Violation("C11 client builder refused valid inputs: "+err.Error(), nil)
+					c.Violation(c.ID+" client builder refused valid inputs: "+err.Error(), nil)
 					return
 				}
 				ch.built = append(ch.built, b)
@@ -402,7 +405,7 @@ func c11ThroughBatchFiles(c *hx.Ctx) {
 			replay := map[string]interface{}{"round": round, "batch": kinds}
 			info, err := v.Handler.PrepareTxnFiles(q)
 			if err != nil {
-				c.Violation(fmt.Sprintf("C11 batch of client-built requests %v refused by the operation handler: %v", kinds, err), replay)
+				c.Violation(fmt.Sprintf(c.ID+" batch of client-built requests %v refused by the operation handler: %v", kinds, err), replay)
 				return
 			}
 			deferred := map[string]bool{}
@@ -410,7 +413,7 @@ func c11ThroughBatchFiles(c *hx.Ctx) {
 				deferred[string(a.OperationRequest)] = true
 			}
 			if len(info.ExpiredOperations) != 0 {
-				c.Violation(fmt.Sprintf("C11 the operation handler discarded %d client-built requests without window as expired", len(info.ExpiredOperations)), replay)
+				c.Violation(fmt.Sprintf(c.ID+" the operation handler discarded %d client-built requests without window as expired", len(info.ExpiredOperations)), replay)
 				return
 			}
 			var includedKinds []string
@@ -426,7 +429,7 @@ func c11ThroughBatchFiles(c *hx.Ctx) {
 			t := txn.SidetreeTxn{Namespace: hx.Namespace, AnchorString: info.AnchorString, TransactionTime: uint64(1000 + 10*round), TransactionNumber: uint64(round % 4),
 				ProtocolVersion: p.GenesisTime, CanonicalReference: fmt.Sprintf("ref%d", round)}
 			if _, err := v.TxnProc.Process(t); err != nil {
-				c.Violation(fmt.Sprintf("C11 anchored batch of client-built requests %v (included %v) cannot be processed: %v", kinds, includedKinds, err), replay)
+				c.Violation(fmt.Sprintf(c.ID+" anchored batch of client-built requests %v (included %v) cannot be processed: %v", kinds, includedKinds, err), replay)
 				return
 			}
 			if len(includedKinds) == 2 && ((includedKinds[0] == "recover" && includedKinds[1] == "update") || (includedKinds[0] == "update" && includedKinds[1] == "recover")) {
@@ -440,7 +443,7 @@ func c11ThroughBatchFiles(c *hx.Ctx) {
 				rm, err := processor.New("verif", store, pc).Resolve(ch.d.Suffix)
 				if want, got := stKey(st, merr), rmKey(rm, err); want != got {
 					replay["history"], replay["intended"], replay["resolved"] = replayOps(H[ch]), want, got
-					c.Violation(fmt.Sprintf("C11 client-built requests anchored through batch files did not produce the intended state (after round %d, batch %v, history %s)\n   intended: %s\n   resolved: %s", round, kinds, histString(H[ch]), want, got), replay)
+					c.Violation(fmt.Sprintf(c.ID+" client-built requests anchored through batch files did not produce the intended state (after round %d, batch %v, history %s)\n   intended: %s\n   resolved: %s", round, kinds, histString(H[ch]), want, got), replay)
 					return
 				}
 			}
@@ -448,7 +451,7 @@ func c11ThroughBatchFiles(c *hx.Ctx) {
 		}
 		for _, ch := range chains {
 			if next[ch] != len(ch.built) {
-				c.Violation(fmt.Sprintf("C11 %d client-built requests of a chain were never included in a batch", len(ch.built)-next[ch]), nil)
+				c.Violation(fmt.Sprintf(c.ID+" %d client-built requests of a chain were never included in a batch", len(ch.built)-next[ch]), nil)
 				return
 			}
 		}
